@@ -10,14 +10,14 @@ D=/verif/seeded/$NAME
 [ -f "$D/patch.diff" ] || { echo "no $D/patch.diff"; exit 2; }
 IDS="$*"
 [ -z "$IDS" ] && IDS=$(python3 -c "import json;m=json.load(open('$D/meta.json'));p=m['property'];print(' '.join(p) if isinstance(p,list) else p)")
-WT=/tmp/seedrun/wt
-mkdir -p /tmp/seedrun
+R=${SEEDRUN_DIR:-/tmp/seedrun}; WT=$R/wt
+mkdir -p $R
 git -C /repo worktree remove --force $WT 2>/dev/null
 git -C /repo worktree add -q --detach $WT HEAD || exit 2
 git -C $WT apply "$D/patch.diff" || { echo "patch does not apply to HEAD"; git -C /repo worktree remove --force $WT; exit 2; }
 RC=0
 for ID in $IDS; do
-  OUT=$(CARGO_BUILD_JOBS=${CARGO_BUILD_JOBS:-12} /verif/tools/run_against.sh $WT $ID ${TIER:-quick} /tmp/seedrun/scratch 2>&1)
+  OUT=$(CARGO_BUILD_JOBS=${CARGO_BUILD_JOBS:-12} /verif/tools/run_against.sh $WT $ID ${TIER:-quick} $R/scratch 2>&1)
   CODE=$?
   echo "$OUT" | grep -E "VIOLATION|KNOWN-FINDING|INCONCLUSIVE|BUILD FAILED|cases" | head -8
   echo "== seeded=$NAME check=$ID exit=$CODE $( [ $CODE = 1 ] && echo CAUGHT || echo MISSED )"
